@@ -143,7 +143,8 @@ PROPS = {
     "C13": P(["Proofs/Locality.v"] + MASTER + ["Properties/C13.v"], ["corr_validate"],
              gens.with_histories(gens.gen_C13),
              "random projects; target = first file; perturbations of the rest: add an unrelated file, remove a non-imported file, "
-             "rewrite body/imports/docs of every other file keeping package, name and kind; the digest of the target's result "
+             "rewrite body/imports/docs of every other file keeping package, name and kind, put a malformed (recovered) member into every "
+             "other file's body; the digest of the target's result "
              "(tree + diagnostics incl. messages) must not change; kind changes of imported files are run as negative control and counted",
              x_checks=["perturb"], post=gens.post_C13),
     "C20": P(["Model/Diag.v", "Proofs/Diag.v", "Properties/C20.v"], [],
